@@ -1590,6 +1590,7 @@ _vbi_cache_put_page		(vbi_cache *		ca,
 				goto replace;
 
 			if (pri != cp->priority
+			    || 0 == cp->network->ref_count /* see above */
 			    || cp == old_cp)
 				continue;
 
